@@ -315,7 +315,7 @@ pub fn run(ctx: &Ctx, acc: &mut Acc) {
         let st = match stages(&case.src) {
             Ok(s) => s,
             Err(e) => {
-                acc.discard(&format!("front/middle stages failed ({}): other properties' business", e.describe().chars().take(40).collect::<String>()));
+                acc.discard(&format!("front/middle stages failed ({}): other properties' business", e.describe().chars().take(160).collect::<String>()));
                 continue;
             }
         };
